@@ -950,6 +950,9 @@ fn build_sdes_body(sdes: &SourceDescription) -> RtpResult<Vec<u8>> {
     for chunk in &sdes.chunks {
         body.extend_from_slice(&chunk.ssrc.to_be_bytes());
         for item in &chunk.items {
+            if item.text.len() > 255 {
+                return Err(RtpError::InvalidRtcp("SDES item longer than 255 bytes"));
+            }
             body.push(item.ty);
             body.push(item.text.len() as u8);
             body.extend_from_slice(item.text.as_bytes());
